@@ -240,4 +240,20 @@ PLAN = {
         runs=both("", dict(cases=6000, size=100, budget=35), dict(cases=150000, size=150, budget=600), 5, 5) +
              [dict(variant="large", flavour="opt", quick=dict(cases=60, size=100, shards=6, budget=40), thorough=dict(cases=3000, size=100, shards=16, budget=900))],
     ),
+    "C17": dict(
+        rule=("memory safety proper is watched in EVERY check of every property: all harnesses run on the ASan+UBSan build with GMP "
+              "routed through malloc, and any report fails the check that meets it. This check adds reproducibility: edit / solve / "
+              "copy / load-basis histories (as C05) are executed in-process and then re-executed in fresh processes under four "
+              "environments - ASan build with malloc fill 0xbe, ASan build with malloc fill 0x00, optimised build (slab allocator) "
+              "with MALLOC_PERTURB_=0x5a, optimised build with MALLOC_PERTURB_=0xff under setarch -R (no ASLR) - and the transcripts "
+              "(return codes, statuses, exact x/pi/rc/slack, Farkas vectors, returned bases, the final problem through the query API, "
+              "hashes of the written LP/MPS/basis files) must be byte-identical; a share of the histories is also run under valgrind "
+              "memcheck (--error-exitcode, undefined-value errors on) on an uninstrumented build. Non-trivial = history with a solve "
+              "and a structural edit; distinct by transcript."),
+        technique="PBT with cross-environment differential (determinism) oracle + sanitizers + valgrind sample",
+        needs_all_flavours=True,
+        valgrind_share=dict(quick=1, thorough=4),
+        min_nontrivial=dict(quick=200, thorough=3000),
+        runs=both("", dict(cases=2400, size=100, budget=40), dict(cases=60000, size=150, budget=900), 6, 10),
+    ),
 }
